@@ -350,8 +350,17 @@ func runC13() *RunResult {
 			if ares == nil {
 				return
 			}
-			if pres == nil || len(pres) != len(ares) {
+			if pres == nil {
 				t.probe("plain-and-accessor-results-disagree(not-judged)")
+				return
+			}
+			if len(pres) != len(ares) {
+				// the location the specification predicts for accessor i is the location of the
+				// i-th result of the path; a path that yields another number of results in
+				// accessor mode than in plain mode binds accessors to locations the path does
+				// not select (or leaves selected ones without accessor)
+				t.judged++
+				t.fail("C13:accessors-for-other-locations-than-the-path-selects", p.Text, fmt.Sprintf("%v: %d accessors, but the path selects %d values in plain mode: %s", o, len(ares), len(pres), clip(canon(pres), 200)))
 				return
 			}
 			byCont, byLeaf, _ := st.index()
